@@ -2,7 +2,7 @@
 import importlib
 import sys
 
-TRANSLATORS = []
+TRANSLATORS = ["gen_registry", "gen_proto", "gen_clientapi"]
 
 
 def run_all():
